@@ -8,6 +8,8 @@ _STR = re.compile(r'"((?:[^"\\]|\\.)*)"')
 _FINAL = re.compile(r"(\d+) states generated, (\d+) distinct states found, (\d+) states left on queue")
 _SIMFINAL = re.compile(r"The number of states generated: (\d+)")
 _n = [0]
+import threading
+_lock = threading.Lock()
 
 
 class TlcResult:
@@ -59,8 +61,9 @@ def tla(x):
 def run(module, cfg, consts=None, env=None, workers=1, simulate=None, depth=None, seed=None, timeout=1800,
         coverage=False, deadlock=False, heap="4g", dfs=False, extra=()):
     """module: name of a module in /verif/spec; cfg: text of the configuration file."""
-    _n[0] += 1
-    work = scratch() / ("tlc%d" % _n[0])
+    with _lock:
+        _n[0] += 1
+        work = scratch() / ("tlc%d" % _n[0])
     work.mkdir()
     if consts:
         # constants that a .cfg cannot express (sequences, negative numbers): wrapper module MC_<module>
@@ -79,7 +82,8 @@ def run(module, cfg, consts=None, env=None, workers=1, simulate=None, depth=None
         module_for_cfg = module
     cfgp = work / (module_for_cfg + ".cfg")
     cfgp.write_text(cfg)
-    cmd = ["java", "-XX:+UseParallelGC", "-Xmx" + heap, "-DTLA-Library=" + str(SPEC)]
+    gc = ["-XX:+UseSerialGC", "-XX:TieredStopAtLevel=1"] if workers == 1 else ["-XX:+UseParallelGC"]
+    cmd = ["java"] + gc + ["-Xmx" + heap, "-DTLA-Library=" + str(SPEC)]
     if dfs:
         cmd.append("-Dtlc2.tool.queue.IStateQueue=StateDeque")
     cmd += ["-cp", JAR, "tlc2.TLC", "-noGenerateSpecTE", "-metadir", str(work / "meta"),
